@@ -257,6 +257,30 @@ def _dv_case(rng, mode):
     return c
 
 
+def _reassign_case(rng):
+    """a view looked at part of a caller buffer and is then assigned the whole container (same data(), other size), or
+    the other way round: state left over from the earlier assignment must not survive"""
+    arr = rng.chance(0.4)
+    n = 3 if arr else rng.pick([2, 3, 4, 5, 7])
+    kind = "arr" if arr else "vec"
+    c = ["buf_new 0 %s %s" % (kind, _vals(rng, n))]
+    i = rng.randrange(NW)
+    part = rng.randrange(0, n)
+    steps = [("b0:0:%d" % part, "ptr"), ("b0:0:%d" % n, kind)]
+    if rng.chance(0.3):
+        steps.reverse()
+    c.append("av_new %d %s %s" % (i, steps[0][0], steps[0][1]))
+    c.append("obs %d" % i)
+    c.append("av_set %d %s %s" % (i, steps[1][0], steps[1][1]))
+    c.append("obs %d" % i)
+    if rng.chance(0.5):
+        c.append("av_set %d %s %s" % (i, steps[0][0], steps[0][1]))
+        c.append("obs %d" % i)
+        c.append("av_set %d %s %s" % (i, steps[1][0], "mk" if rng.chance(0.3) else steps[1][1]))
+        c.append("obs %d" % i)
+    return c
+
+
 def gen_cases(rng, tier, h):
     mode = h["mode"]
     n = 350 if tier == "quick" else 12000
@@ -265,6 +289,8 @@ def gen_cases(rng, tier, h):
         cases.append(_wrapper_case(rng, mode))
         if k % 5 == 0:
             cases.append(_dv_case(rng, mode))
+        if k % 10 == 3:
+            cases.append(_reassign_case(rng))
     return cases
 
 
